@@ -19,24 +19,24 @@ Proof.
   intro I. apply inb_In in I. rewrite I in H1. discriminate.
 Qed.
 
-Lemma last_table_in ds : ds <> [] -> exists d, In (d, last_table ds) ds.
+Lemma last_table_in ds : ds <> [] -> exists d ob, In (d, ob) ds /\ last_table ds = co_tab ob.
 Proof.
   induction ds as [|[d ob] ds IH]; intro N; [contradiction|].
   destruct ds as [|x ds'].
-  - exists d. left. reflexivity.
-  - destruct IH as [d' Hd']; [discriminate|]. exists d'. right. exact Hd'.
+  - exists d, ob. split; [left; reflexivity|reflexivity].
+  - destruct IH as [d' [ob' [Hd' E]]]; [discriminate|]. exists d', ob'. split; [right; exact Hd'|exact E].
 Qed.
 
 Lemma keys_nodup_params c : wf_classes c = true -> keys_nodup (params_of c).
 Proof.
   intros W h. unfold params_of. cbn [events_of].
   destruct (alookup h (c_hcls c)) as [k|]; [|constructor].
-  destruct (alookup k (last_table (c_classes c))) as [m|] eqn:E; [|constructor].
+  destruct (alookup k (last_table (c_classes c))) as [om|] eqn:E; [|constructor].
   destruct (c_classes c) as [|x ds] eqn:Ec; [discriminate|].
-  destruct (last_table_in (x :: ds)) as [d Hd]; [discriminate|].
+  destruct (last_table_in (x :: ds)) as [d [ob [Hd El]]]; [discriminate|].
   unfold wf_classes in W. rewrite Ec in W. rewrite forallb_forall in W.
   specialize (W _ Hd). apply andb_true_iff in W. destruct W as [_ W]. cbn [snd] in W.
-  rewrite forallb_forall in W. apply alookup_In in E. specialize (W _ E). cbn [snd] in W.
+  rewrite forallb_forall in W. rewrite El in E. apply alookup_In in E. specialize (W _ E). cbn [snd] in W.
   apply nodupb_NoDup. exact W.
 Qed.
 
